@@ -289,9 +289,11 @@ def run(ctx, anchors=None):
     except _sx11.Unsupported as e:
         raise AnalysisBroken("R11.4b: %s" % e)
     flag_names = [d["n"] for n in pv.nodes() if n["k"] == "decl" for d in n["decls"] if (d.get("ty") or "") == "bool"]
-    if len(flag_names) != 1:
-        raise AnalysisBroken("R11.4b: expected one boolean state flag in parse_pretend_valid_expr, found %s" % flag_names)
     acc = [o for o in outs11 if o.ret == _sx11.C(1)]
+    if len(flag_names) != 1:
+        # no (single) boolean state flag: that is what R11.4 parser-state-flag reports; nothing to read the end state from
+        ctx.note("R11.4b: no single boolean state flag in parse_pretend_valid_expr (%s); end-of-input state not judged" % flag_names)
+        acc = []
     dangling = []
     for o in acc:
         g = _sx11.Explorer.var(o, flag_names[0])
@@ -304,7 +306,8 @@ def run(ctx, anchors=None):
             continue
         dangling.append(_sx11.show(g)[:60])
     ctx.site(len(acc))
-    ctx.inst(bool(acc) and not dangling, "R11.4", "dangling-signature-rejected", pv.loc(),
+    if len(flag_names) == 1:
+      ctx.inst(bool(acc) and not dangling, "R11.4", "dangling-signature-rejected", pv.loc(),
              "every accepting path of the pair-list parser ends with the signature flag cleared",
              "the pair-list parser can return true while it still holds a signature without a key (flag = %s): `--pretend-valid=sig1:` and `sig1:pub1,sig2:` are accepted and the dangling signature is silently dropped" % (dangling[0] if dangling else ""))
 
